@@ -80,6 +80,27 @@ def run(tier, seed):
             except Exception as e:  # noqa: BLE001
                 ok, obs = False, f"raises {type(e).__name__}: {e}"
             b.case((p.key(), "ctor"), ok, observed=obs, inputs={"definition": p.text.split(chr(10))[-1]})
+    # assignment is local to the instance: assigning every field of one default instance leaves another default instance
+    # (existing or new) at the zero value
+    loc = Bounded("assignment-local-to-the-instance", "family F singles and multi-field programs (fixed-size): assign each field of one default instance, observe a second and a fresh one")
+    for p in [q for q in sets.singles(endians=("<",), aligns=(False, True)) if _fixed(q)] + [Program(k, "<", a) for k in (["anon_s", "u8"], ["u8", "anon_u"], ["named_s", "anon_s"]) for a in (False, True)]:
+        try:
+            cs = p.load(False)
+            T = cs.T
+            a, other = T(), T()
+            zero = T().dumps()
+            src = T(bytes((i * 13 + 5) % 256 for i in range(len(T))))
+            for name in T.fields:
+                try:
+                    setattr(a, name, getattr(src, name))
+                except Exception:  # noqa: BLE001
+                    continue
+            ok = other.dumps() == zero and T().dumps() == zero
+            obs = f"other instance dumps {other.dumps().hex()}, fresh default dumps {T().dumps().hex()}, expected {zero.hex()}"
+        except Exception as e:  # noqa: BLE001
+            ok, obs = False, f"raises {type(e).__name__}: {e}"
+        loc.case(p.key(), ok, observed=obs, inputs={"definition": p.text.split(chr(10))[-1], "align": p.align})
+    loc.add_to(rep)
     b.add_to(rep)
     rep.extra["rule"] = "templates for n fields (n in a fixed list up to 24); assignment locality per fixed-size program; instance pairs per program"
     rep.extra["explanation"] = (
